@@ -11,7 +11,7 @@ import os, re, json, random
 import vlib, proj
 from vlib import Verdict, run_tlc, vh, read_ndjson, write_ndjson, sample
 
-ORDER = ["G1", "C1", "GR", "C2", "GA", "GC", "CC", "GT", "CT", "GN", "Q", "QR", "C1b", "C0", "CN1", "CN2", "CA"]
+ORDER = ["G1", "C1", "GR", "C2", "GA", "GC", "CC", "GT", "CT", "GN", "Q", "QR", "C1b", "C0", "CN1", "CN2", "CA", "GCA", "CCA"]
 SUGAR_CONSTRAINTS = {"CN1", "CN2"}
 SUGAR = {"GT", "GN"}
 
@@ -58,14 +58,14 @@ def render(case, k):
             stmts.append((it, "zz2 <== Sub2()(in1, s1);", []))
         elif it == "GA":
             continue
-        elif it == "CA":
+        elif it in ("CA", "GCA", "CCA"):
             continue
     custom = case["kind"] == "custom"
     head = "pragma circom 2.0.0;\n" + ("pragma custom_templates;\n" if custom else "")
     head += "template Sub() {\n  signal input x;\n  signal output o;\n  o <== x;\n}\n"
     head += "template Sub2() {\n  signal input p;\n  signal input q;\n  signal output o;\n  o <== p * q;\n}\n"
     head += "template %sT(n) {\n  signal input in1;\n  signal input in2;\n  signal output s1;\n  signal output s2;\n  signal sa[2];\n" % ("custom " if custom else "")
-    head += "  signal t1;\n  signal t2;\n  signal u;\n  signal w;\n  signal z;\n  signal zz1;\n  signal zz2;\n  component c = Sub();\n"
+    head += "  signal t1;\n  signal t2;\n  signal u;\n  signal w;\n  signal z;\n  signal zz1;\n  signal zz2;\n  component c = Sub();\n  component cs[2];\n"
     text = head
     nest = case["nest"]
     ind = "  "
@@ -105,6 +105,22 @@ def render(case, k):
             spans["CA"] = (start, start + len(t))
             text += ind + "  " + t + "\n"
         text += ind + "}\n"
+    if "GCA" in case["items"] or "CCA" in case["items"]:
+        # ports of the elements of a component array, assigned and constrained in a loop
+        text += ind + "for (var j = 0; j < 2; j++) {\n" + ind + "  cs[j] = Sub();\n"
+        if "GCA" in case["items"]:
+            t = "cs[j].x <-- %s;" % ("in1 * in2" if case["rhs"] == "q" else "in1 >> j")
+            start = len((text + ind + "  ").encode())
+            spans["GCA"] = (start, start + len(t) - 1)
+            text += ind + "  " + t + "\n"
+        else:
+            text += ind + "  cs[j].x <== in1;\n"
+        if "CCA" in case["items"]:
+            t = "cs[j].x * 2 === in2;"
+            start = len((text + ind + "  ").encode())
+            spans["CCA"] = (start, start + len(t))
+            text += ind + "  " + t + "\n"
+        text += ind + "}\n"
     if nest != "none":
         text += "  }\n"
     text += "}\n"
@@ -117,7 +133,7 @@ def norm_signal(name):
         return "p"
     if name.endswith(".q") or name == "q":
         return "q"
-    return name.replace(" ", "")
+    return name.replace(" ", "").replace("cs[j]", "cs[i]")
 
 
 def run(tier):
@@ -168,7 +184,7 @@ def run(tier):
             l = r["primary"][0]
             m = re.search(r"`([^`]*)`", l["msg"])
             sig = norm_signal(m.group(1)) if m else "?"
-            owner = [it for it, (s, e) in spans.items() if s <= l["s"] and l["e"] <= e + 1 and it in ("G1", "GR", "GA", "GC", "GT", "GN")]
+            owner = [it for it, (s, e) in spans.items() if s <= l["s"] and l["e"] <= e + 1 and it in ("G1", "GR", "GA", "GC", "GT", "GN", "GCA")]
             if len(owner) != 1:
                 bad = ("assign:finding not anchored at a signal assignment statement", {"label": l})
                 break
